@@ -91,7 +91,7 @@ func ruleErrorPropagation(r *Run, rule string) {
 									k += cnt
 								}
 							}
-							key := types.ExprString(e)
+							key := canonExpr(info, e)
 							count[key]++
 							c := fmt.Sprintf("%s:if(%s!=nil)#%d", fname, key, count[key])
 							if errPos < 0 {
@@ -215,7 +215,7 @@ func ruleExhaustiveSwitches(r *Run, rule string) {
 						return true
 					}
 					nsw++
-					c := fmt.Sprintf("%s.%s:switch(%s)#%d", rel, declName(fd), types.ExprString(sw.Tag), nsw)
+					c := fmt.Sprintf("%s.%s:switch(%s)#%d", rel, declName(fd), canonExpr(p.TypesInfo, sw.Tag), nsw)
 					// constants named by the cases
 					var named []*types.Const
 					for _, cl := range sw.Body.List {
@@ -876,6 +876,13 @@ func runC07(r *Run) {
 	r.floor("R07.9", 20)
 	ruleCyclesPositive(r, "R07.8")
 	rulePcEndComparison(r, "R07.9")
+	// R07.11: an instruction is fetched only under a bound test (index out of range otherwise)
+	r.floor("R07.11", 12)
+	for _, v := range variants(r.W) {
+		if v.pkg != nil {
+			ruleFetchBounded(r, v, "R07.11")
+		}
+	}
 	// R07.10 (= R05.4a): a store routed to the cache on a presence test of fewer than all of its bytes is written past the line end (index out of range in Line.set)
 	r.floor("R07.10", 7)
 	for _, v := range variants(r.W) {
